@@ -17,6 +17,10 @@ def catalog():
         n_points_min=4, want='removed')
     add('empty_d', like='gauss', n_live=20, n_update=4, n_batch=4, n_eff=15, f_live=0.1,
         n_points_min=4, want='removed', discard=True)
+    add('empty2', like='gauss', n_live=20, n_update=4, n_batch=4, n_eff=40, f_live=0.1,
+        n_points_min=4, want='removed2')
+    add('empty2_d', like='gauss', n_live=20, n_update=4, n_batch=4, n_eff=15, f_live=0.1,
+        n_points_min=4, want='removed2', discard=True)
     add('gauss_t', like='gauss', n_live=30, n_batch=15, n_eff=30, f_live=0.1)
     add('nlb', like='gauss', n_live=30, n_batch=10, n_like_new_bound=30, n_eff=60, f_live=0.2)
     add('nlb_ring', like='ring', n_live=40, n_batch=20, n_like_new_bound=60, n_eff=100,
